@@ -129,7 +129,7 @@ class C15(Property):
       for _ in range(n):
         op = W.weighted("op", [(10, "set"), (6, "sett"), (6, "del"),
                                (2, "gett"), (2, "rebuild"), (1, "copycon"),
-                               (2, "swap"), (1, "delt")])
+                               (2, "swap"), (1, "delt"), (2, "setlooked")])
         if wide and op in ("del", "rebuild", "swap", "copycon", "delt"):
           op = "set"
         if op == "set":
@@ -140,6 +140,11 @@ class C15(Property):
                       W.choose("v", nv), W.choose("subclass", 4) == 3])
         elif op == "del":
           ops.append(["del", W.choose("k", nk)])
+        elif op == "setlooked":
+          # d[d.key2keys(k)] = v / d[d.value2keys(v0)] = v: the key tuple is
+          # the very object the dictionary handed out
+          ops.append(["setlooked", W.choose("k", nk), W.choose("v", nv),
+                      W.choose("via", 3)])
         elif op in ("gett", "delt"):
           m = W.span("tl", 0 if op == "delt" else 1, 3)
           ops.append([op, [W.choose("k", nk) for _ in range(m)]])
@@ -249,6 +254,10 @@ class C15(Property):
           out.append("d[%r]" % (tuple(KEYS[k] for k in op[1]),))
         elif op[0] == "delt":
           out.append("del d[%r]" % (tuple(KEYS[k] for k in op[1]),))
+        elif op[0] == "setlooked":
+          how = ["d.key2keys(%r)", "d.value2keys(d[%r])",
+                 "<the tuple of d.keys() holding %r>"][op[3]]
+          out.append("d[%s] = %r" % (how % (KEYS[op[1]],), VALS[op[2]]))
         else:
           if op[0] == "copycon":
             out.append("d = MultiKeyDict(d)")
@@ -317,6 +326,27 @@ class C15(Property):
                           "d[%r] = %r raised %r" % (key, val, exc))
         probes |= m.assign(key, val)
         mutating += 1
+      elif name == "setlooked":
+        key, val = KEYS[op[1]], VALS[op[2]]
+        try:
+          if op[3] == 0:
+            kt = d.key2keys(key)
+          elif op[3] == 1:
+            kt = d.value2keys(d[key])
+          else:
+            kt = [k for k in d.keys() if key in k][0]
+        except (KeyError, IndexError):
+          kt = None                   # the key is not there
+        if kt is not None:
+          try:
+            d[kt] = val
+          except Exception as exc:
+            raise _Mismatch("unexpected-exception", "setitem",
+                            "d[<looked-up %r>] = %r raised %r"
+                            % (kt, val, exc))
+          probes |= m.assign(tuple(kt), val)
+          probes.add("assignment-through-a-looked-up-key-tuple")
+          mutating += 1
       elif name == "del":
         key = KEYS[op[1]]
         self._same_outcome(lambda: d.__delitem__(key),
